@@ -54,6 +54,17 @@ def points(tier: str) -> List[Dict[str, Any]]:
                 for forced in (None, "QU", "QM"):
                     pts.append({"cache": st, "timeout": timeout, "arrive": dict(zip(missing, arr)), "forced": forced,
                                 "extra": False})
+    # another lookup of the same instance (another object, same Zeroconf) asked the same questions shortly before and
+    # timed out: its QM questions sit in the instance's question history when this lookup starts
+    for prior_timeout in (400, 1000, 3000):
+        for gap in (0, 1, 300, 700, 999, 1500):
+            for cache in (("absent",) * 4, ("absent", "fresh", "absent", "absent"), ("stale", "stale", "absent", "absent")):
+                for arr in ("never", 50):
+                    for forced in (None, "QU"):
+                        st = dict(zip(KINDS, cache))
+                        missing = [k for k in KINDS if st[k] == "absent"]
+                        pts.append({"cache": st, "timeout": 3000, "arrive": {k: arr for k in missing}, "forced": forced,
+                                    "extra": False, "prior": {"timeout": prior_timeout, "gap": gap}})
     # a lookup object that is used again after the service moved to another host
     for b_state in ("absent", "fresh", "expired"):
         for b_arrives in ("never", 50, 250):
@@ -111,6 +122,14 @@ def run_point(p: Dict[str, Any], verbose: bool = False) -> Tuple[Optional[Dict[s
             # an address for the host the expired SRV points to: must never be used
             w.loop.call_at((t0 - 5000) / 1000, w.net.inject, host, wire.encode(51, 0x8400, (), [OLD_A_AT_OLD_HOST]),
                            ("10.0.0.50", 5353))
+        if p.get("prior"):
+            pr = p["prior"]
+
+            async def earlier() -> None:
+                await AsyncServiceInfo(TYPE, NAME).async_request(zc, pr["timeout"])
+
+            # (with SRV/TXT cached the earlier lookup asks only for what is missing, like this one)
+            w.loop.call_at((t0 - pr["gap"] - pr["timeout"]) / 1000, lambda: w.spawn(earlier()))
         w.advance_to_ms(t0)
         for k in KINDS:
             if st[k] == "expired" and not any(r.is_expired(w.now_ms) for r in zc.cache.entries_with_name(OLD[k][1])):
